@@ -61,8 +61,9 @@ def _work(job):
         recs[tag] = body
         for m in mm:
             res.append((tag, m.prop, m.clause, m.text, at))
-    # C09: the two real runs against each other, in base/quote terms
-    if not res:
+    # C09: the two real runs against each other, in base/quote terms - whatever each of them does relative to the specification
+    # (a deviation both orientations share is another property's; one they do not share is C09's as well)
+    if all(len(recs[t]) >= len(sa) for t in ("A", "B")) or not res:
         for i, (ra, rb) in enumerate(zip(recs["A"], recs["B"])):
             if touched[i]:
                 tally("info/mirror_skipped_after_boundary_path")
